@@ -493,16 +493,19 @@ Definition valid_quad_b (q : quad) : bool :=
    sources by GenGrid.init_recreates_grid).  Departures do not touch the module state. *)
 Inductive sop := SJoin | SLeave | SInsert (q : quad).
 
-Definition sess_step (recreate : bool) (g : grid) (o : sop) : grid :=
+Definition sess_step_with (ins : grid -> quad -> grid) (recreate : bool) (g : grid) (o : sop) : grid :=
   match o with
   | SJoin => if recreate then new_grid 1 1 module_resolution else g
   | SLeave => g
-  | SInsert q => insert g q
+  | SInsert q => ins g q
   end.
 
 (* the session is created (with its grid) by the first join; [ops] is what happens afterwards *)
-Definition sess_run (recreate : bool) (ops : list sop) : grid :=
-  fold_left (sess_step recreate) ops (new_grid 1 1 module_resolution).
+Definition sess_run_with (ins : grid -> quad -> grid) (recreate : bool) (ops : list sop) : grid :=
+  fold_left (sess_step_with ins recreate) ops (new_grid 1 1 module_resolution).
+
+Definition sess_step : bool -> grid -> sop -> grid := sess_step_with insert.
+Definition sess_run : bool -> list sop -> grid := sess_run_with insert.
 
 Fixpoint inserted (ops : list sop) : list quad :=
   match ops with
